@@ -173,6 +173,15 @@ pub fn draw_line<T: Copy>(mut image: NdTensorViewMut<T, 2>, line: Line, value: T
         let img_height: i32 = image.rows().try_into().unwrap();
         let img_width: i32 = image.cols().try_into().unwrap();
 
+        // A line whose bounding box does not intersect the image has no
+        // visible pixels. Clamping its end points would paint it onto the
+        // image's border instead.
+        let (top, bottom) = (line.start.y.min(line.end.y), line.start.y.max(line.end.y));
+        let (left, right) = (line.start.x.min(line.end.x), line.start.x.max(line.end.x));
+        if bottom < 0 || right < 0 || top >= img_height || left >= img_width {
+            return;
+        }
+
         let start = clamp_to_bounds(line.start, img_height, img_width);
         let end = clamp_to_bounds(line.end, img_height, img_width);
         let clamped = Line::from_endpoints(start, end);
